@@ -18,7 +18,7 @@ var (
 func enumValues(maxSize int) []any {
 	enumOnce.Do(func() {
 		enumBySz = make([][]any, 5)
-		enumBySz[1] = []any{nil, 1, "x", []any{}, map[string]any{}}
+		enumBySz[1] = []any{nil, 1, "1", "x", []any{}, map[string]any{}}
 		for s := 2; s <= 4; s++ {
 			var out []any
 			// lists: sequences of values with total size s-1
@@ -223,6 +223,26 @@ func randomEdit(r *rand.Rand, n dom.Node) string {
 
 func c05Clone(r *rand.Rand, a any, editClone bool) Case {
 	na := nodeVia(a, r.Intn(2))
+	// a document with history: containers emptied again (their map stays allocated), lists cleared
+	if r.Intn(2) == 0 {
+		var cbs []dom.ContainerBuilder
+		var lbs []dom.ListBuilder
+		collectBuilders(na, &cbs, &lbs)
+		for _, cb := range cbs {
+			if r.Intn(3) == 0 {
+				cb.AddValue("tmp", dom.LeafNode(1))
+				for k := range cb.Children() {
+					cb.Remove(k)
+				}
+			}
+		}
+		for _, lb := range lbs {
+			if r.Intn(4) == 0 {
+				lb.Clear()
+			}
+		}
+		a = nodeToAny(na)
+	}
 	var cl dom.Node
 	var fail []string
 	if pn := guard(func() { cl = na.Clone() }); pn != "" {
@@ -354,7 +374,7 @@ func mutateVal(r *rand.Rand, v any, o genOpts) any {
 func init() {
 	register(&Prop{
 		ID:   "C05",
-		Rule: "kinds: equals (exhaustive ordered pairs of all nodes with <= 2 (quick) / <= 3 (thorough) nodes over keys {a,b} and scalars {null,1,\"x\"}, then random pairs: equal / one-edit apart / unrelated; every operand built along one of four routes: builder API, decoder (FromMap), Clone, sealed read-only view; a third of the random documents use odd member names: dots, slashes, blanks, the empty key), trans (triples), nil, sameas, edit-equals (Equals re-evaluated against the plain views after every one of 1-6 in-place edits, incl. MustSet, of one operand that has been read before), clone-sealed (the original holds sealed views of builders that are edited after cloning), clone (clone then 1-10 random in-place edits of the original or of the clone; the other side must not change). Non-trivial: same-kind unequal composite pair; clone of a document with > 2 nodes. Distinct by Gallina term.",
+		Rule: "kinds: equals (exhaustive ordered pairs of all nodes with <= 2 (quick) / <= 3 (thorough) nodes over keys {a,b} and scalars {null,1,\"1\",\"x\"}, then random pairs: equal / one-edit apart / unrelated; every operand built along one of four routes: builder API, decoder (FromMap), Clone, sealed read-only view; a third of the random documents use odd member names: dots, slashes, blanks, the empty key), trans (triples), nil, sameas, edit-equals (Equals re-evaluated against the plain views after every one of 1-6 in-place edits, incl. MustSet, of one operand that has been read before), clone-sealed (the original holds sealed views of builders that are edited after cloning), clone (clone then 1-10 random in-place edits of the original or of the clone; the other side must not change). Non-trivial: same-kind unequal composite pair; clone of a document with > 2 nodes. Distinct by Gallina term.",
 		Corpus: func() []Case {
 			return []Case{
 				c05Eq(map[string]any{"a": 1}, map[string]any{"a": 1, "b": 2}), // pinned-tree defect
